@@ -15,6 +15,7 @@ RULE = ("plans: entry (SOCKS5 UDP ASSOCIATE, reverse-UDP listener, HTTP CONNECT 
         "1-6 interleaved sessions from 1-4 clients; payload sizes 0,1,1000,1472,9000,per-path maximum and every value around one QUIC datagram (1090-1210) and its multiples; destinations IPv4/IPv6/domain, several per session where the "
         "protocol allows; reordering by independent per-datagram delays; one class injects ECONNREFUSED on the proxy's upstream socket; non-trivial = >= 2 sessions "
         "or a payload larger than one QUIC packet, with at least one reply; distinct = event-order hash")
+RULE_MORE = "Later additions: a second service on one host; sizes around one QUIC datagram and its multiples; empty datagrams inside sessions; a client that leaves while a talkative destination keeps answering, followed by later sessions; the kernel's automatic UDP port choice landing on a port another SO_REUSEADDR socket holds (seeded, udp_port_reuse)."
 LEVEL_TEXT = ("seeded exploration of the real UDP code paths (socks frames, reverse listener sessions, stream frames, QUIC datagram fragmentation and reassembly through real "
               "quinn): every datagram carries a unique tag, so loss of the first datagram of a session, duplication, cross-session delivery, mislabelled replies and "
               "datagrams materialising from a receive error are all attributable")
